@@ -191,6 +191,8 @@ def run_hypothesis(ctx, strategy, check, max_examples, label='main', rounds=4, s
                     check(case, ctx)
             except CaseTimeout:
                 ctx.timeouts += 1
+                if len(ctx.inconclusive) < 3:
+                    ctx.inconclusive.append('case abandoned by the watchdog: ' + json.dumps(case, default=repr)[:400])
             except Violation as v:
                 if bucket_of(v) in ctx.suppressed:
                     ctx.count('suppressed_repeat:' + bucket_of(v))
